@@ -115,10 +115,32 @@ def run(chk):
         jobs.append((name, dict(d=d, specs=[ref] + [s for s, _ in mat], timeout=(150 if tier == "quick" else 600), patterns=pats)))
     # backward analysis (uses FnWritesTo for its on-demand pre-building): eager vs on-demand on the generated programs
     for name, d, man, main_re, excl_re, pats in progs:
-        if man is not None and (tier != "quick" or name == "regress"):
+        if man is not None and name == "regress":
             jobs.append((("bt", name), dict(d=d, specs=["bt=1,od=0", "bt=1,od=1"], timeout=(150 if tier == "quick" else 600),
                                             config=os.path.join(d, "config_bt.yaml"))))
     results = C.trun_many(jobs, workers=min(len(jobs), max(2, vlib.NCPU // 4)))
+
+    # a panic of the eager reference run on a generated program (a C01/C07 matter, reported by the C01 check as crash:<atoms>)
+    # would hide the whole program: take the crashing scenarios out and run the matrix on the rest
+    stats["crashers_removed"] = 0
+    for idx, (name, d, man, main_re, excl_re, pats) in enumerate(list(progs)):
+        if man is None:
+            continue
+        ref, mat = mats[name]
+        r0 = {r["spec"]: r for r in results[name].get("runs", [])}.get(ref)
+        if r0 is None or not r0.get("panic"):
+            continue
+        crs = C.isolate_crashers(os.path.join(work, "crash-" + name), man["scenarios"], ref, timeout=(200 if tier == "quick" else 600))
+        if not crs:
+            continue
+        gone = set(c["scenario"]["id"] for c in crs)
+        stats["crashers_removed"] += len(gone)
+        chk.notes.append("%s: the analysis panics on %s (see C01 crash:*); scenario(s) removed before comparing options"
+                         % (name, [c["key"] for c in crs]))
+        d2 = d + "-nocrash"
+        man2 = C.mugo(d2, spec=[C.strip_scen(sc) for sc in man["scenarios"] if sc["id"] not in gone])
+        results[name] = C.trun(d2, [ref] + [s for s, _ in mat], timeout=(150 if tier == "quick" else 600), patterns=pats)
+        progs[idx] = (name, d2, man2, main_re, excl_re, pats)
 
     distinct = set()
     od_misses = []     # (program, scenario, direction)
@@ -237,27 +259,42 @@ def run(chk):
         if ta == tb:
             stats["bt_ok"] += 1
             continue
-        found_concrete = True
         only_e, only_l = sorted(ta - tb), sorted(tb - ta)
-        # attribute to scenarios through the line of the backtrace point (third component = position of the sink call)
-        lines = set()
-        for t in only_e + only_l:
+        byline = {sc.get("sink_line"): sc for sc in man["scenarios"]}
+
+        def scen_of(t):
             m = re.search(r":(\d+):\d+", t[2])
-            if m:
-                lines.add(int(m.group(1)))
-        scs = [sc for sc in man["scenarios"] if sc.get("sink_line") in lines]
-        # stable key: direction + kinds of the ORIGIN nodes of the differing traces (first component "pos#NodeKind")
-        kinds_e = sorted(set(t[0].split("#")[-1] for t in only_e))
-        kinds_l = sorted(set(t[0].split("#")[-1] for t in only_l))
-        key = "backtrace-ondemand:" + "/".join((["only-eager:" + "+".join(kinds_e)] if only_e else []) +
-                                               (["only-ondemand:" + "+".join(kinds_l)] if only_l else []))
-        rd = chk.replay_dir(key)
-        pd = C.copy_prog(d, rd)
-        with open(os.path.join(rd, "replay.txt"), "w") as f:
-            f.write("backtrace analysis on %s: trace end points differ between eager and on-demand summarisation\nonly eager    : %s\nonly on-demand: %s\n"
-                    "scenarios: %s\n\nre-run: %s -dir %s -config %s/config_bt.yaml bt=1,od=0 bt=1,od=1\n"
-                    % (name, only_e[:10], only_l[:10], [C.scen_label(sc) for sc in scs][:10], C.TRUN, pd, pd))
-        chk.violation(key, "backtrace: %d trace end points only eager, %d only on-demand (%s)" % (len(only_e), len(only_l), name), rd)
+            return byline.get(int(m.group(1))) if m else None
+
+        # the ORIGIN of backtrace traces through two results of one call is not deterministic (C06 finding
+        # nondeterministic:traces:bt:*:multires): such scenarios cannot be compared between two single runs
+        def stable(t):
+            sc = scen_of(t)
+            return not (sc and any(a["kind"] == "multires" for a in sc["atoms"]))
+        skipped = [t for t in only_e + only_l if not stable(t)]
+        if skipped:
+            stats["bt_unstable_traces_skipped"] = stats.get("bt_unstable_traces_skipped", 0) + len(skipped)
+        only_e, only_l = [t for t in only_e if stable(t)], [t for t in only_l if stable(t)]
+        if not only_e and not only_l:
+            stats["bt_ok"] += 1
+            continue
+        found_concrete = True
+        # one violation per (direction, kind of the ORIGIN node of the differing traces: first component "pos#NodeKind")
+        classes = {}
+        for direction, ts in (("only-eager", only_e), ("only-ondemand", only_l)):
+            for t in ts:
+                classes.setdefault((direction, t[0].split("#")[-1]), []).append(t)
+        for (direction, kind), ts in sorted(classes.items()):
+            key = "backtrace-ondemand:%s:%s" % (direction, kind)
+            scs = [sc for sc in (scen_of(t) for t in ts) if sc]
+            rd = chk.replay_dir(key)
+            pd = C.copy_prog(d, rd)
+            with open(os.path.join(rd, "replay.txt"), "w") as f:
+                f.write("backtrace analysis on %s: %d trace end points with origin node kind %s are reported %s\n%s\nscenarios: %s\n\n"
+                        "re-run: %s -dir %s -config %s/config_bt.yaml bt=1,od=0 bt=1,od=1\n"
+                        % (name, len(ts), kind, "eagerly but not on demand" if direction == "only-eager" else "on demand but not eagerly",
+                           ts[:10], sorted(set(C.scen_label(sc) for sc in scs))[:14], C.TRUN, pd, pd))
+            chk.violation(key, "backtrace: %d trace end points (origin %s) %s (%s)" % (len(ts), kind, direction, name), rd)
 
     # ---------------------------------------------------------------- eager/on-demand differences on generated programs: minimise, key by atom
     if od_misses:
@@ -318,7 +355,7 @@ def run(chk):
         open(p, "w").write("the regenerated tables of coq/gen/GenRW.v disagree with the real lang.FnReadsFrom/FnWritesTo on these "
                            "(function, global) pairs, or an operand position is missing from the schema:\n" + "\n".join(rw_bad[:50]) +
                            "\nunknown positions: %s\n" % sorted(unknown_pos))
-        if not found_concrete:
+        if not (found_concrete and chk.has_new_concrete()):
             chk.violation("tie-broken", "T-gen translator (gen_rw.go) no longer matches the code: %d disagreements, unknown positions %s"
                           % (len(rw_bad), sorted(unknown_pos)), p, no_input=True)
 
